@@ -9,11 +9,13 @@ A vector is a dict
     dyn    list of dynamic field kinds          res  result kind or "na"       exc  exception kind or "na"
     path   serialisation path                   trips 1|2                      rep  representative index
 The observation (one projection, `evaluate`) holds, per component, the canonical rendering of the value before and
-after (pure ASCII strings; `lb/la` = rendering up to Python equality, `sb/sa` = type-strict rendering), so that TLC
-can compare them, plus Python's own `==` as a cross-check of the rendering.
+after (pure ASCII strings `lb/la`, equal iff the values are equal in Python's sense; long texts as a digest), so that
+TLC can compare them, plus Python's own `==` as a cross-check of the rendering and `drift` (equal, but bool/int/float
+differ: a note at most).
 """
 from __future__ import annotations
 
+import hashlib
 import json
 import re
 from datetime import datetime, timezone
@@ -102,14 +104,17 @@ def canon(x, strict):
         is_waiter = type(x).__name__.startswith("AddWaiter")
         for f in sorted(type(x).model_fields):
             v = getattr(x, f)
-            if is_waiter and f == "requirements":
-                continue        # documented: requirements are not serialised, only their presence is
-            if is_waiter and f == "has_requirements":
-                v = bool(v) or bool(x.requirements)
+            if is_waiter and f in ("requirements", "has_requirements"):
+                continue        # documented: requirements are not serialised (judged separately, never demanded)
             fields.append("%s=%s" % (f, canon(v, strict)))
         name = "workflows.runtime.types.results.AddWaiter" if is_waiter else qualname(type(x))
         return "M<%s>{%s}" % (name, ",".join(fields))
     return "O<%s>:%s" % (qualname(type(x)), _s(repr(x)))
+
+
+def _short(text):
+    """Long canonical texts travel as a digest: TLC only compares them."""
+    return text if len(text) <= 48 else "#" + hashlib.sha1(text.encode()).hexdigest()[:20]
 
 
 def _comp(name, kind, before, after):
@@ -117,8 +122,9 @@ def _comp(name, kind, before, after):
         eq = bool(before == after)
     except Exception:
         eq = False
-    return {"name": name, "kind": kind, "lb": canon(before, False), "la": canon(after, False),
-            "sb": canon(before, True), "sa": canon(after, True), "pyeq": eq}
+    lb, la = canon(before, False), canon(after, False)
+    return {"name": name, "kind": kind, "lb": _short(lb), "la": _short(la), "pyeq": eq,
+            "drift": lb == la and canon(before, True) != canon(after, True), "text": [lb[:300], la[:300]]}
 
 
 # ------------------------------------------------------------------ building the event of a vector
@@ -203,6 +209,14 @@ def _guard(where, fn, *a, **k):
         raise Raised(where, e)
 
 
+def _registry(ev):
+    """What a server registers for a workflow: all its event classes, base classes included (distinct short names)."""
+    m = _mods()
+    E, K = m["ev"], m["k"]
+    return [K.Trigger, K.Leaf, K.LeafSub, E.Event, E.StartEvent, E.StopEvent, E.InputRequiredEvent, E.HumanResponseEvent,
+            type(ev)]
+
+
 def _event_trip(path, ev):
     m = _mods()
     S, ENV = m["S"], m["env"]
@@ -210,23 +224,21 @@ def _event_trip(path, ev):
         txt = _guard("serialize", S.serialize, ev)
         return _guard("deserialize", S.deserialize, txt), txt, None, None
     if path == "json_container":
-        box = {"k": ev, "l": [ev, 1, "x"], "n": {"m": [ev]}}
+        box = {"k": ev, "l": [ev, 1, "x", None, 0.5], "n": {"m": [ev], "z": None, "e": {}}, "": []}
         txt = _guard("serialize", S.serialize, box)
         out = _guard("deserialize", S.deserialize, txt)
-        if not (isinstance(out, dict) and sorted(out) == ["k", "l", "n"]):
-            raise Raised("deserialize", TypeError("container shape changed: %r" % (out,)))
-        return out["k"], txt, box, out
+        return out, txt, box, out
     if path in ("env_meta_qn", "env_meta_reg"):
         env = _guard("serialize", ENV.EventEnvelopeWithMetadata.from_event, ev)
         txt = _guard("serialize", env.model_dump_json)
         back = _guard("deserialize", ENV.EventEnvelopeWithMetadata.model_validate_json, txt)
         if path == "env_meta_qn":
             return _guard("deserialize", back.load_event), txt, None, None
-        return _guard("deserialize", back.load_event, [m["k"].Trigger, type(ev)]), txt, None, None
+        return _guard("deserialize", back.load_event, _registry(ev)), txt, None, None
     if path in ("env_client", "env_client_str"):
         env = _guard("serialize", ENV.EventEnvelope.from_event, ev)
         txt = _guard("serialize", lambda: json.dumps(env.model_dump()))
-        reg = {"Trigger": m["k"].Trigger, type(ev).__name__: type(ev)}
+        reg = {c.__name__: c for c in _registry(ev)}
         data = txt if path == "env_client_str" else json.loads(txt)
         return _guard("deserialize", ENV.EventEnvelope.parse, data, reg), txt, None, None
     raise ValueError(path)
@@ -284,6 +296,24 @@ def build_tick(v, ev, exc2):
     raise ValueError(path)
 
 
+def _mask(x):
+    Event = _mods()["ev"].Event
+    if isinstance(x, Event):
+        return "<event>"
+    if isinstance(x, dict):
+        return {k: _mask(i) for k, i in x.items()}
+    if isinstance(x, list):
+        return [_mask(i) for i in x]
+    return x
+
+
+def _pick(box, rep):
+    try:
+        return (box["k"], box["l"][0], box["n"]["m"][0])[rep % 3]
+    except Exception:
+        return None
+
+
 def _tick_trip(tick):
     A = _mods()["ticks"].WorkflowTickAdapter
     data = _guard("serialize", A.dump_python, tick, mode="json")
@@ -308,7 +338,10 @@ def _tick_fields(t0, t1, skip_main):
                         continue
                     va, vb = getattr(ra, g), getattr(rb, g, "<missing>")
                     if type(ra).__name__.startswith("AddWaiter") and g == "has_requirements":
-                        va = bool(va) or bool(ra.requirements)
+                        # "did the waiter have requirements": written as True by the serialiser, dropped by the
+                        # validator; requirements are documented as not serialisable -> recorded, never demanded
+                        out.append(_comp(slot, "tick_undemanded", bool(va) or bool(ra.requirements), vb))
+                        continue
                     out.append(_comp(slot, "tick", va, vb))
             continue
         if f == skip_main:
@@ -347,17 +380,15 @@ def evaluate(v):
     try:
         if not is_tick:
             cur = ev
-            box0 = box1 = None
             for _ in range(v["trips"]):
-                cur, txt, b0, b1 = _event_trip(path, cur)
+                cur, txt, box0, box1 = _event_trip(path, cur)
                 wires.append(txt)
-                if box0 is None:
-                    box0 = b0
-                box1 = b1
+                if box0 is not None:
+                    # the event sits at three positions of the container; rep picks the one that is judged, the
+                    # container around the events must come back as it was
+                    rec["tick"] = [_comp("container", "tick", _mask(box0), _mask(box1))]
+                    cur = _pick(box1, v["rep"])
             after = cur
-            if box0 is not None:        # the other positions of the container must hold the same event too
-                rec["tick"] += [_comp("container.l", "container", box0["l"], box1["l"]),
-                                _comp("container.n", "container", box0["n"], box1["n"])] if exc is None else []
         else:
             t0, getter = build_tick(v, ev, exc2)
             t1 = t0
